@@ -4,7 +4,7 @@ use super::common::*;
 use crate::engine::{fail, pass, Ctx, Opts, Verdict};
 use crate::gen;
 use crate::hashid::{HashId, ALL_HASHES};
-use crate::libapi::{self, Cb, Out};
+use crate::libapi::{self, Cb};
 use crate::refmodel::{hss, Level};
 use crate::with_hash;
 use hbs_lms::verif_hooks as hooks;
@@ -200,7 +200,7 @@ pub fn run(ctx: &Ctx) {
     ctx.set_rule("for each of Seed, SeedAndLmsTreeIdentifier, ReferenceImplPrivateKey, LmsPrivateKey, LmotsPrivateKey (caller-supplied chain values and library-derived ones) x 6 hashes x random secrets: build a populated instance through the hook factories; positive control: >= 90% of the secret's 8-byte windows are found in the object's storage; (i) zeroize() then scan the storage: no window survives; (ii) move a second instance into a MaybeUninit slot, ptr::drop_in_place, scan the slot: no window survives (observes the drop-time wipe itself). End to end: the key handed to the callback / left in the SigningKey at exhaustion contains no 4-byte window of the seed. Non-trivial = positive control succeeded (vacuous cases are counted apart); distinct by serialized case.");
     ctx.assume("reading the storage of a dropped value through volatile byte reads is technically outside Rust's abstract machine; it is confined to the harness");
     ctx.assume("stack temporaries, moved-from copies and the caller-owned SigningKey are outside what this oracle observes");
-    let cases = ctx.tier.pick(6_000u32, 120_000u32);
+    let cases = ctx.tier.pick(60_000u32, 600_000u32);
     ctx.random(
         "memory_residue",
         &|| {
@@ -232,7 +232,7 @@ pub fn run(ctx: &Ctx) {
     let shapes: Vec<Vec<Level>> = vec![vec![(8, 2)], vec![(8, 2), (4, 2)], vec![(4, 5)], vec![(8, 2), (8, 2), (8, 2)], vec![(4, 2), (8, 5)]];
     for h in ALL_HASHES {
         for s in &shapes {
-            for t in 0..ctx.tier.pick(2u64, 20u64) {
+            for t in 0..ctx.tier.pick(6u64, 40u64) {
                 ex.push(ExhaustCase { hash: h, levels: s.clone(), tag: t, via_key: t % 2 == 1 });
             }
         }
